@@ -277,9 +277,9 @@ theorem barStep_good (w : RW) (k : Nat) (op : BarOp) (h : Inv w) (hc : Clean w (
           have hmem' : (w.barAt k).member = false := by simpa using hmem
           simp only [Clean, hmem', Bool.false_eq_true, false_or] at hc
           rcases hc with rfl | hm
-          · exact Good.congr w _ h (by simp) rfl rfl (by simp)
-          · exact output_good w out _ h hm
-        · exact suspend_good w out h
+          · exact Good.congr w _ h (by simp [wrapRows]) rfl rfl (by simp [wrapRows])
+          · exact output_good w _ _ h hm
+        · exact suspend_good w _ h
       | reset => exact setBar_barDraw_good w k _ _ _ h
       | finish f => exact finishWith_good _ _ _ _ h
       | finishUsingStyle => exact finishWith_good _ _ _ _ h
@@ -303,7 +303,7 @@ theorem step_good (w : RW) (op : MOp) (h : Inv w) (hc : Clean w op) : Good w (st
       · exact (Good.congr w _ h rfl rfl rfl rfl).trans (draw_good _ _ _ (inv_congr w _ h rfl rfl rfl rfl))
     | mpPrintln t => exact draw_good _ _ _ h
     | mpClear => exact clear_good w h
-    | mpSuspend out => exact suspend_good w out h
+    | mpSuspend out => exact suspend_good w _ h
     | align b => exact Good.refl w h
     | retarget => exact retarget_good w _ h
     | bar k op => exact barStep_good w k op h hc
@@ -821,8 +821,8 @@ theorem frameOk_barStep (w : RW) (k : Nat) (op : BarOp) (h : FrameOk w) (hc : Cl
         · rename_i hmem
           have hmem' : (w.barAt k).member = false := by simpa using hmem
           simp only [CleanF, hmem', Bool.false_eq_true, false_or] at hc
-          exact frameOk_output w out _ h hc
-        · exact frameOk_suspend w out
+          exact frameOk_output w _ _ h (hc.imp (fun e => by rw [e]; rfl) id)
+        · exact frameOk_suspend w _
       | reset => exact frameOk_setBar_barDraw w k _ _ _ h
       | finish f => exact frameOk_finishWith _ _ _ _ h
       | finishUsingStyle => exact frameOk_finishWith _ _ _ _ h
@@ -840,7 +840,7 @@ theorem frameOk_step (w : RW) (op : MOp) (h : FrameOk w) (hc : CleanF w op) : Fr
       · exact frameOk_same w _ h ⟨rfl, rfl, rfl, rfl, rfl, fun _ => rfl⟩ (fun j hj hf hm => h.synced j hj hf hm)
       · rename_i p _
         -- the new bar has drawn nothing yet: no painted rows, not finished
-        have hnew : ∀ j, ((w.bars ++ [({ b := { len := len, tpl := templates.getD tpl [], onFinish := fin, pfx := pfx, start := w.now } } : RBar)]).getD j { b := {} }).painted =
+        have hnew : ∀ j, ((w.bars ++ [({ b := { len := len, tpl := templates.getD tpl [], onFinish := fin, pfx := pfx, start := w.now, wrapW := w.wrapW } } : RBar)]).getD j { b := {} }).painted =
             (w.bars.getD j { b := {} }).painted := by
           intro j
           simp only [List.getD_eq_getElem?_getD]
@@ -879,7 +879,7 @@ theorem frameOk_step (w : RW) (op : MOp) (h : FrameOk w) (hc : CleanF w op) : Fr
       · exact frameOk_draw_forced _ _
     | mpPrintln t => exact frameOk_draw_forced _ _
     | mpClear => exact frameOk_clear w h
-    | mpSuspend out => exact frameOk_suspend w out
+    | mpSuspend out => exact frameOk_suspend w _
     | align b => exact h
     | retarget => exact ⟨fun hs => (by cases hs), fun j hj hf hm => h.synced j hj hf hm⟩
     | bar k op => exact frameOk_barStep w k op h hc
